@@ -241,7 +241,7 @@ def sweep_bytecounts(run, r, uniq):
 
 
 def sweep_addresses(run, r, uniq):
-    n = run.scale(60, 1500)
+    n = run.scale(60, 16000)
     for li in range(n):
         layout = small_layout(r, li) if li % 3 else {'single': True, 'zero_mode': bool(li % 2), 'units': {1: SM.unit_layout(r, share=False, small=False)}}
         w = World(layout)
@@ -334,7 +334,7 @@ SAFE_POINTS = {1: 2, 2: 2, 3: 2, 4: 2, 5: 2, 6: 2, 15: 2, 16: 2, 22: 3, 23: 3}  
 
 
 def injection(run, r, uniq):
-    n = run.scale(260, 6000)
+    n = run.scale(260, 60000)
     for i in range(n):
         layout = small_layout(r, i)
         w = World(layout)
